@@ -368,6 +368,13 @@ func newHTTPRig(down, up string, useStream ...bool) (*httpRig, error) {
 			}
 			w.WriteHeader(p.Status)
 			if !p.NoBody {
+				if p.Chunks != nil {
+					// the headers leave as a frame of their own: an empty body then ends with an EMPTY DATA frame that carries
+					// END_STREAM instead of END_STREAM on the HEADERS frame
+					if f, ok := w.(http.Flusher); ok {
+						f.Flush()
+					}
+				}
 				if p.Chunks != nil { // several DATA frames
 					i := 0
 					for _, n := range p.Chunks {
